@@ -509,6 +509,189 @@ static void drive_nodeparse(const testcase *tc, vf_rng *r)
 	mpt_node_clear(&root);
 }
 
+/* E: read error (getc returns -1) at a position of known kind in a well-formed text */
+enum { ErrComment, ErrBetween, ErrName, ErrValue, ErrHeader, ErrTrailing, ErrClasses };
+static const char *const errclass[ErrClasses] = { "comment", "between-elements", "name", "value", "section-header", "trailing-comment" };
+typedef struct { size_t from, to; int cls, depth; } span;   /* error positions from..to (inclusive) */
+typedef struct { bytes b; span sp[200]; size_t nsp; } errdoc;
+
+static void ed_span(errdoc *d, size_t from, size_t to, int cls, int depth)
+{
+	if (to < from || d->nsp >= 200) return;
+	d->sp[d->nsp].from = from; d->sp[d->nsp].to = to; d->sp[d->nsp].cls = cls; d->sp[d->nsp].depth = depth;
+	d->nsp++;
+}
+static void ed_word(vf_rng *r, bytes *b, int min)
+{
+	for (int n = vf_range(r, min, 8); n > 0; n--) b_put(b, 'a' + (int) vf_below(r, 26));
+}
+static void ed_gap(vf_rng *r, errdoc *d, int depth)
+{
+	/* blanks between elements, sometimes a comment line */
+	size_t a = d->b.n;
+	b_put(&d->b, ' ');
+	if (vf_chance(r, 1, 2)) b_put(&d->b, '\n');
+	if (vf_chance(r, 1, 3)) b_put(&d->b, '\t');
+	ed_span(d, a, d->b.n, ErrBetween, depth);
+	if (vf_chance(r, 1, 2)) {
+		size_t c = d->b.n;
+		b_put(&d->b, '#');
+		ed_word(r, &d->b, 2);
+		b_put(&d->b, ' ');
+		ed_word(r, &d->b, 1);
+		ed_span(d, c + 1, d->b.n, ErrComment, depth);
+		b_put(&d->b, '\n');
+		a = d->b.n;
+		b_put(&d->b, ' ');
+		ed_span(d, a, d->b.n, ErrBetween, depth);
+	}
+}
+static void ed_option(vf_rng *r, errdoc *d, int oend, int depth)
+{
+	size_t a = d->b.n;
+	ed_word(r, &d->b, 3);
+	ed_span(d, a + 1, d->b.n - 1, ErrName, depth);
+	b_add(&d->b, " = ", 3);
+	a = d->b.n;
+	ed_word(r, &d->b, 3);
+	if (vf_chance(r, 1, 2)) { b_put(&d->b, ' '); ed_word(r, &d->b, 2); }
+	ed_span(d, a + 1, d->b.n - 1, ErrValue, depth);
+	if (oend) b_put(&d->b, ';');
+	else {
+		if (vf_chance(r, 1, 3)) {
+			size_t c;
+			b_put(&d->b, ' ');
+			c = d->b.n;
+			b_put(&d->b, '#');
+			ed_word(r, &d->b, 3);
+			ed_span(d, c + 1, d->b.n, ErrTrailing, depth);
+		}
+		b_put(&d->b, '\n');
+	}
+}
+static void ed_items(vf_rng *r, errdoc *d, int family, int oend, int depth)
+{
+	int n = vf_range(r, 1, 4);
+	while (n-- > 0) {
+		ed_gap(r, d, depth);
+		if (family != '_' && depth < 2 && vf_chance(r, 1, 3) && !(family == ' ' && depth)) {
+			size_t a;
+			switch (family) {
+			case '*':
+				a = d->b.n;
+				ed_word(r, &d->b, 3);
+				ed_span(d, a + 1, d->b.n - 1, ErrHeader, depth);
+				b_add(&d->b, " {", 2);
+				ed_items(r, d, family, oend, depth + 1);
+				ed_gap(r, d, depth + 1);
+				b_put(&d->b, '}');
+				break;
+			case 'x':
+				b_put(&d->b, '{');
+				a = d->b.n;
+				ed_word(r, &d->b, 3);
+				ed_span(d, a + 1, d->b.n - 1, ErrHeader, depth);
+				b_put(&d->b, '\n');
+				ed_items(r, d, family, oend, depth + 1);
+				ed_gap(r, d, depth + 1);
+				b_put(&d->b, '}');
+				break;
+			default:
+				b_put(&d->b, '[');
+				a = d->b.n;
+				ed_word(r, &d->b, 3);
+				ed_span(d, a + 1, d->b.n, ErrHeader, depth);
+				b_put(&d->b, ']');
+				ed_items(r, d, family, oend, 1);
+			}
+		}
+		else ed_option(r, d, oend, depth);
+	}
+}
+static void drive_errpos(vf_rng *r)
+{
+	static const struct { const char *fmt; int family, oend; } fm[] = {
+		{ "{*} =;#", '*', 1 }, { "{*} = #", '*', 0 }, { "{x} =;#", 'x', 1 }, { "{x} = #", 'x', 0 },
+		{ "[ ] =;#", ' ', 1 }, { "[ ] = #", ' ', 0 }, { "<_> =;#", '_', 1 }, { "<_> = #", '_', 0 }
+	};
+	static const char *const famname[] = { "prefix", "enclosed", "separated", "options" };
+	static char cnt_end[ErrClasses][4][56], cnt_err[ErrClasses][4][56];
+	static bytes before, after;
+	uint32_t k = vf_below(r, 8);
+	int family = fm[k].family, oend = fm[k].oend, fi = family == '*' ? 0 : family == 'x' ? 1 : family == ' ' ? 2 : 3;
+	errdoc *d = calloc(1, sizeof(*d));
+	MPT_STRUCT(parser_context) ctx;
+	MPT_STRUCT(node) root = MPT_NODE_INIT;
+	testcase tc;
+	input in;
+	const span *sp;
+	size_t pos;
+	int ret, must_fail;
+
+	if (!d) vf_inconclusive("out of memory");
+	ed_items(r, d, family, oend, 0);
+	if (vf_chance(r, 1, 2)) ed_gap(r, d, 0);
+	if (!d->nsp) { free(d->b.d); free(d); return; }
+	sp = &d->sp[vf_below(r, (uint32_t) d->nsp)];
+	pos = sp->from + vf_below(r, (uint32_t) (sp->to - sp->from) + 1);
+	if (pos > d->b.n) pos = d->b.n;
+	vf_fp_u64(0xE0 ^ ((uint64_t) k << 8) ^ ((uint64_t) pos << 16));
+	vf_fp(d->b.d, d->b.n);
+
+	memset(&tc, 0, sizeof(tc));
+	tc.sect = tc.opt = 0xff;
+	/* the text itself is accepted */
+	input_init(&in, &d->b, NONE);
+	ctx_setup(&ctx, &in, &tc, r);
+	vf_at("mpt_parse_node");
+	ret = mpt_parse_node(&root, &ctx, fm[k].fmt);
+	input_fini(&in);
+	if (ret < 0) {
+		vf_fail("model:getc-error:plain-text-rejected", "E fmt=\"%s\": generated text rejected (%d) without any read error: %.*s", fm[k].fmt, ret, (int) d->b.n, (const char *) d->b.d);
+	}
+	/* now with the error; target keeps the tree of the first parse */
+	snapshot(&before, &root);
+	input_init(&in, &d->b, pos);
+	ctx_setup(&ctx, &in, &tc, r);
+	vf_log("E: fmt=\"%s\" read error at %zu (%s, depth %d) of: %.*s", fm[k].fmt, pos, errclass[sp->cls], sp->depth, (int) d->b.n, (const char *) d->b.d);
+	vf_at("mpt_parse_node");
+	vf_count("mpt_parse_node", 1);
+	ret = mpt_parse_node(&root, &ctx, fm[k].fmt);
+	vf_log("E: = %d (%s) getc=%llu", ret, retname(ret), (unsigned long long) in.calls);
+	/* where the parser functions tell a read error from the end of input (see notes/C08.md) */
+	if (family != '*') {
+		/* enclosed, separated, options: the element parsers tell -1 from -2; an error swallowed
+		 * inside a value comes back at the next element because the reader keeps reporting it */
+		must_fail = 1;
+	} else {
+		/* prefix: at top level every negative code ends the input (counted only) */
+		must_fail = sp->depth > 0 || sp->cls == ErrName || sp->cls == ErrHeader || (sp->cls == ErrValue && oend);
+	}
+	if (!cnt_end[sp->cls][fi][0]) {
+		snprintf(cnt_end[sp->cls][fi], sizeof(cnt_end[0][0]), "getc-error-as-end:%s:%s", errclass[sp->cls], famname[fi]);
+		snprintf(cnt_err[sp->cls][fi], sizeof(cnt_err[0][0]), "getc-error-reported:%s:%s", errclass[sp->cls], famname[fi]);
+	}
+	vf_count(ret < 0 ? cnt_err[sp->cls][fi] : cnt_end[sp->cls][fi], 1);
+	if (must_fail) {
+		char key[80];
+		snprintf(key, sizeof(key), "model:getc-error:reported-as-success:%s", errclass[sp->cls]);
+		VF_CHECK(ret < 0, key, "E fmt=\"%s\": getc returned -1 at byte %zu (%s, depth %d) but the parse returned %d; text: %.*s",
+		         fm[k].fmt, pos, errclass[sp->cls], sp->depth, ret, (int) d->b.n, (const char *) d->b.d);
+		vf_count("monitor:getc-error-must-fail", 1);
+	}
+	if (ret < 0) {
+		snapshot(&after, &root);
+		if (before.n != after.n || memcmp(before.d, after.d, before.n)) {
+			vf_fail("model:getc-error:tree-changed-on-failure", "E fmt=\"%s\": read error at %zu (%s): returned %d but the target tree differs", fm[k].fmt, pos, errclass[sp->cls], ret);
+		}
+		vf_count("monitor:getc-error-target-unchanged", 1);
+	}
+	input_fini(&in);
+	mpt_node_clear(&root);
+	free(d->b.d);
+	free(d);
+}
+
 /* ------------------------------------------------------------------ cases */
 uint64_t vf_cases(void) { return vf_thorough ? 3000000 : 240000; }
 
@@ -568,6 +751,7 @@ void vf_case(uint64_t idx, vf_rng *r)
 	}
 	if (!tc.f.next || vf_chance(r, 3, 5)) drive_node(&tc, r);
 	if (vf_chance(r, 1, 4)) drive_nodeparse(&tc, r);
+	if (vf_chance(r, 1, 2)) drive_errpos(r);
 
 	vf_sample("%s", tc.desc);
 	c08_case_free(&c);
